@@ -56,6 +56,8 @@ impl TestRunnerAdapter {
         thread::spawn(move || {
             let mut last_checked_pc = None;
             while thread_is_connected.load(Ordering::Relaxed) {
+                #[cfg(mos_verif)]
+                crate::verif_sched::point(6);
                 // The run state stays locked while an instruction is checked and executed, so that 'pause'
                 // cannot publish 'Stopped' in the middle of an iteration and then see one more instruction execute
                 let mut state = thread_state.lock().unwrap();
